@@ -312,9 +312,28 @@ def merge(c, a, b, t):
     if k == "array":
         return tuple(merge(c, x, y, t[1]) for x, y in zip(a, b))
     if k == "option":
-        return VOpt(T.ite(c, a.tag, b.tag), merge(c, a.val, b.val, t[1]))
+        # the payload is only ever read under tag = Some: a side that is known to be None contributes nothing
+        ta, tb = T.assume(a.tag, c, 1), T.assume(b.tag, c, 0)
+        if ta.op == "c" and not ta.val:
+            val = b.val
+        elif tb.op == "c" and not tb.val:
+            val = a.val
+        else:
+            val = merge(c, a.val, b.val, t[1])
+        return VOpt(T.ite(c, a.tag, b.tag), val)
     if k == "either":
-        return VEi(T.ite(c, a.tag, b.tag), merge(c, a.l, b.l, t[1]), merge(c, a.r, b.r, t[2]))
+        def pick(xa, xb, a_dead, b_dead, ty):
+            if a_dead:
+                return xb
+            if b_dead:
+                return xa
+            return merge(c, xa, xb, ty)
+        ta, tb = T.assume(a.tag, c, 1), T.assume(b.tag, c, 0)
+        a_is_r = ta.op == "c" and ta.val == 1
+        a_is_l = ta.op == "c" and ta.val == 0
+        b_is_r = tb.op == "c" and tb.val == 1
+        b_is_l = tb.op == "c" and tb.val == 0
+        return VEi(T.ite(c, a.tag, b.tag), pick(a.l, b.l, a_is_r, b_is_r, t[1]), pick(a.r, b.r, a_is_l, b_is_l, t[2]))
     if k == "list":
         return VList([(T.ite(c, pa, pb), tuple(merge(c, x, y, t[1]) for x, y in zip(ea, eb)))
                       for (pa, ea), (pb, eb) in zip(a.blocks, b.blocks)])
@@ -929,24 +948,35 @@ class Spec:
         return acc, fails
 
     def for_while(self, e, env):
+        """first Left wins; iterations after it are not evaluated; Right(acc) after 2^n iterations.
+
+        Written as the recursion  loop(i, acc) = match f(acc, ctx, i) { Left(b) => Left(b),
+        Right(a) => loop(i + 1, a) }  unrolled from the last iteration backwards."""
         (av, cv), fails = self.eval_args([e.acc, e.ctx], env)
         fn = e.fn
         cw = fn.params[2][1][1]
         ret_ty = fn.ret  # Either<B, A>
-        done = T.false()
-        result = default(ret_ty)
+        order = list(range(1 << cw))
+        if "fw_bitrev" in self.mut:  # canary: counter halves regrouped in the wrong order
+            order = [int(format(i, "0%db" % cw)[::-1], 2) for i in order]
+        steps = []
         acc = av
-        acc_ty = fn.params[0][1]
-        for i in range(1 << cw):
-            if done.op == "c" and done.val:
-                break
-            active = T.not_(done)
+        for i in order:
             r, f = self.call_fn(fn, [acc, cv, T.const(cw, i)])
-            fails = T.or_(fails, T.and_(active, f))
-            is_left = T.not_(r.tag)
-            exit_now = T.and_(active, is_left)
-            result = merge(exit_now, r, result, ret_ty)
-            acc = merge(T.and_(active, r.tag), r.r, acc, acc_ty)
-            done = T.or_(done, exit_now)
-        final = VEi(T.true(), default(ret_ty[1]), acc)
-        return merge(done, result, final, ret_ty), fails
+            steps.append((r, f))
+            if r.tag.op == "c" and not r.tag.val and "fw_no_stop" not in self.mut:
+                break  # certainly exits here
+            if f.op == "c" and f.val:
+                break  # certainly panics here
+            acc = r.r
+        else:
+            steps.append((VEi(T.true(), default(ret_ty[1]), acc), T.false()))
+        result, rest_fails = steps[-1]
+        for r, f in reversed(steps[:-1]):
+            cont = r.tag  # Right: continue
+            if "fw_no_stop" in self.mut:
+                rest_fails = T.or_(f, rest_fails)
+                continue
+            result = merge(cont, result, r, ret_ty)
+            rest_fails = T.or_(f, T.and_(cont, rest_fails))
+        return result, T.or_(fails, rest_fails)
